@@ -28,6 +28,8 @@ type aSpec struct {
 	nReleased int
 	// finished with a schedule: all released
 	hasMatchedLen bool
+	// flagsFalse: batch bids start unflagged (instead of arbitrary provisional flags)
+	flagsFalse bool
 }
 
 // aState is what the builder produced: the records stored for the auction and
@@ -125,8 +127,12 @@ func buildAuction(e *env.Env, prefix string, sp aSpec) *aState {
 			}
 			price := posDec(bp + "price")
 			nd.Assume(price.GTE(minBid))
+			flag := false
+			if !sp.flagsFalse {
+				flag = nd.Bool(bp + "matched")
+			}
 			b = types.Bid{AuctionId: sp.id, Id: uint64(i + 1), Bidder: user(owner), Type: typ, Price: price,
-				Coin: sdk.NewCoin(denom, posInt(bp+"amt")), IsMatched: nd.Bool(bp + "matched")}
+				Coin: sdk.NewCoin(denom, posInt(bp+"amt")), IsMatched: flag}
 		} else {
 			denom := denomPay
 			if nd.Pick(bp+"sellDenom", 2) == 1 {
